@@ -126,7 +126,7 @@ def _case(draw):
     descs = [draw(_desc(k)) for k in kinds]
     ops = []
     for _ in range(draw(st.integers(3, 8))):
-        ops.append([draw(st.sampled_from(["build", "build_edit", "build_keep", "render_kept", "render_cli", "render_cli", "render_api", "render_api"])), draw(st.integers(0, nd - 1))])
+        ops.append([draw(st.sampled_from(["build", "build_edit", "build_keep", "render_kept", "render_cli", "render_cli", "render_api", "render_api", "faulty_krome"])), draw(st.integers(0, nd - 1))])
     if not any(o[0].startswith("render") for o in ops):
         ops.append(["render_cli", 0])
     return {"descs": descs, "ops": ops}
@@ -220,6 +220,16 @@ def _do(op, desc, workdir, k, slot=0):
             t = CommandTester(app.find("render"))
             rc = t.execute("--force")
             return _digest(root) if rc == 0 else f"status{rc}"
+        if op == "faulty_krome":
+            # somebody tries to read a broken KROME file (directives, then a species outside the element list) and
+            # catches the error; the next networks must not be affected
+            bad = root / "bad.krome"
+            bad.write_text("@common:user_leak1,user_leak2\n@var:vt_leak = 2.0*Tgas\n@format:idx,R,R,P,P,rate\n1,H,H,H2,,1.0d-10*user_leak1\n2,Xx9,H,H2,,1.0d-10\n")
+            try:
+                Network(filelist=[str(bad)], fileformats=["krome"], elements=["e", "E", "H"], pseudo_elements=[])
+            except Exception:
+                pass
+            return None
         if op == "render_kept" and slot in _KEPT:
             # render a network that was built earlier (other networks may have been built in between)
             net = _KEPT[slot]
@@ -254,7 +264,13 @@ def _do(op, desc, workdir, k, slot=0):
             return None
         s, m, dv = desc["backend"]
         TemplateLoader(s, m, dv).render("vtproj", net, path=root)
-        return _digest(root)
+        first = _digest(root)
+        # render the same Network object once more (export() followed by to_code(), two back-ends in a row, ...)
+        again = Path(workdir) / f"op{k}_again"
+        again.mkdir()
+        TemplateLoader(s, m, dv).render("vtproj", net, path=again)
+        second = _digest(again)
+        return first if first == second else f"second-render-of-same-object-differs:{first}:{second}"
     finally:
         os.chdir(cwd)
 
@@ -312,6 +328,8 @@ def check_case(case, tier):
                 nontrivial = True
             if str(ref).startswith(("raised", "status")):
                 labels.append("description-refused-alone")
+            elif str(dg).startswith("second-render-of-same-object-differs"):
+                failures.append((f"determinism/second-render-of-same-object/{descs[i]['kind']}", f"op#{k} {op}({descs[i]['kind']}): rendering the same Network object twice in a row gives different sources ({dg})"))
             elif dg != ref:
                 # classify by what happened before
                 kinds = sorted({descs[j]["kind"] for _, j in prev_other})
